@@ -278,6 +278,28 @@ def r3b(F, rep):
                     detail="a difference is folded around zero; folding it around wrap_center makes the distance asymmetric and not minimal", func=f.q)
     if n < 3:
         raise AnalysisBroken("colvar::dist2 / dist2_lgrad / dist2_rgrad not found")
+    # the three dispatchers choose their implementation under the same conditions
+    disp = {}
+    for m in ("dist2", "dist2_lgrad", "dist2_rgrad"):
+        for f in F.func_q("colvar::" + m):
+            res = X.const_locals(f)
+            conds = []
+            for x in f.walk():
+                if x["k"] == "IfStmt":
+                    cs = x["c"][1:] if len(x["c"]) == 4 else x["c"]
+                    if cs and cs[0] is not None:
+                        conds.append(X.re_strip(X.key(cs[0], f, res)))
+            disp[m] = (f, conds)
+    ref = disp["dist2"][1]
+    if len(ref) < 2:
+        raise AnalysisBroken("colvar::dist2: dispatch conditions not found")
+    for m in ("dist2_lgrad", "dist2_rgrad"):
+        f, conds = disp[m]
+        diff = [c for c in conds if c not in ref] + [c for c in ref if c not in conds]
+        rep.add("C18-R3", "colvar::%s|dispatch" % m, f.loc(), "colvar::%s selects its implementation under the same %d conditions as colvar::dist2%s" % (
+            m, len(ref), "" if not diff else "; DIFFERENT: " + "; ".join(d[:70] for d in diff)), not diff,
+            detail="where the two disagree the gradient returned is not the derivative of the distance returned (periodic component "
+                   "metric on one side, plain difference on the other)", func=f.q)
 
 
 def run(F, rep, tier):
